@@ -30,8 +30,12 @@ func (e vhFatalErr) Error() string { return "vh: fatal" }
 
 type vhCtxKey struct{}
 
-// vhCalls counts the callbacks made with a context other than the one handed in.
+// vhWrongCtx counts the callbacks made with a context other than the one handed in.
 var vhWrongCtx int
+
+// vhNoFatal restricts the user function to TxInvalidError failures (used by the
+// concurrent harness, where a buffer killed by a fatal error has no defined result).
+var vhNoFatal bool
 
 func vhCheckCtx(ctx context.Context) {
 	if ctx == nil || ctx.Value(vhCtxKey{}) == nil {
@@ -46,7 +50,7 @@ func vhAddTx(ctx context.Context, s uint64, t vhTx) (uint64, error) {
 	}
 	// The state returned next to an error is garbage: the code must not use it.
 	garbage := verifrt.UFU64("garbage", s, t.ID)
-	if verifrt.UFBool("fatal", s, t.ID) {
+	if !vhNoFatal && verifrt.UFBool("fatal", s, t.ID) {
 		return garbage, vhFatalErr{State: s, ID: t.ID}
 	}
 	return garbage, TxInvalidError{Err: vhUserErr{State: s, ID: t.ID}}
@@ -85,6 +89,7 @@ func vhCtx() context.Context {
 // the state produced by its predecessors from BaseState, and the effective
 // current state (curState if isUpdated, else BaseState) equal to the final state.
 func vhPre() (w *workingState[uint64, vhTx], txs []vhTx, eff uint64) {
+	vhNoFatal = false
 	k := verifrt.Choose("k", vhMaxK()+1)
 	base := verifrt.U64("base")
 	txs = make([]vhTx, k)
